@@ -286,10 +286,19 @@ type world struct {
 
 var genMu sync.Mutex
 
-func newWorld(run *ev.Run) *world {
+func newWorld(run *ev.Run) *world { return newWorldAt(run, "") }
+
+// newWorldAt: place names a directory the scratch module is put under ("" = none). The names use
+// characters that are ordinary in directory names but special to pattern matching.
+func newWorldAt(run *ev.Run, place string) *world {
 	root, err := os.MkdirTemp(os.Getenv("VERIF_WORK"), "c13-")
 	if err != nil {
 		run.HarnessError("%v", err)
+	}
+	if place != "" {
+		// (a look-alike sibling that a pattern would match instead)
+		os.MkdirAll(filepath.Join(root, "w1k", "m", "pkg"), 0o755)
+		root = filepath.Join(root, place, "m")
 	}
 	w := &world{root: root, dir: filepath.Join(root, "pkg")}
 	os.MkdirAll(w.dir, 0o755)
@@ -415,8 +424,18 @@ func canonical(run *ev.Run, s *Spec) (*output, string) {
 
 // replay runs a history; returns the first deviation.
 func replay(run *ev.Run, c *Case, canon map[int]*output) (string, bool) {
-	w := newWorld(run)
-	defer os.RemoveAll(w.root)
+	place := ""
+	if len(c.History) > 0 && c.History[0].Op == "place" {
+		place = c.History[0].Arg
+		run.Class("histories:module-under-a-directory-named-" + place)
+	}
+	w := newWorldAt(run, place)
+	defer func() {
+		if place != "" {
+			os.RemoveAll(filepath.Dir(filepath.Dir(w.root)))
+		}
+		os.RemoveAll(w.root)
+	}()
 	cur := -1
 	nontrivStale, nontrivChange := false, false
 	lastMode, lastCwd := "", ""
@@ -480,6 +499,10 @@ func replay(run *ev.Run, c *Case, canon map[int]*output) (string, bool) {
 func genHistory(rt *rapid.T, pool []*Spec) []Step {
 	nSpecs := len(pool)
 	var h []Step
+	if ri(rt, 0, 3, "place") == 0 {
+		// the module lives below a directory whose name holds pattern characters
+		h = append(h, Step{Op: "place", Arg: []string{"w[1]k", "w?k", "w*k", "w k", "{w,k}"}[ri(rt, 0, 4, "placename")]})
+	}
 	cur := ri(rt, 0, nSpecs-1, "s0")
 	if ri(rt, 0, 1, "startpair") == 0 {
 		cur = []int{1, 2, 4, 5, 6, 7}[ri(rt, 0, 5, "s0pair")]
@@ -523,7 +546,7 @@ func genHistory(rt *rapid.T, pool []*Spec) []Step {
 func TestC13(t *testing.T) {
 	run := ev.Start("C13")
 	defer run.Finish(t)
-	run.Rule = "a pool of order-sensitive packages (lexer specs with up to 3 modes, 8 rules per mode and overlapping ranges; grammars with up to 7 tokens, 6 rules and many generated helper rules, with and without _onBounds; a hand-written package whose actions use imported types; two sibling pairs that differ minimally - a 44-56 rule grammar with the two tokens of its last rule swapped, a 70-120 keyword lexer with two late spellings swapped, a small lexer with two token declarations swapped - so that regenerated files keep their length and differ only far from their beginning) and rapid-generated histories over ONE directory: writeSpec(i), generate(in-process | lox binary; cwd = the directory | its parent | / ; absolute | relative path), deleteGenerated(subset), plantForeign(generated files of spec j), touchUserFile; " +
+	run.Rule = "a pool of order-sensitive packages (lexer specs with up to 3 modes, 8 rules per mode and overlapping ranges; grammars with up to 7 tokens, 6 rules and many generated helper rules, with and without _onBounds; a hand-written package whose actions use imported types; two sibling pairs that differ minimally - a 44-56 rule grammar with the two tokens of its last rule swapped, a 70-120 keyword lexer with two late spellings swapped, a small lexer with two token declarations swapped - so that regenerated files keep their length and differ only far from their beginning) and rapid-generated histories over ONE directory: writeSpec(i), generate(in-process | lox binary; cwd = the directory | its parent | / ; absolute | relative path), a quarter of the histories with the module below a directory named w[1]k / w?k / w*k / w k / {w,k}, deleteGenerated(subset), plantForeign(generated files of spec j), touchUserFile; " +
 		"oracle: after every generate step the bytes of base.gen.go, lexer.gen.go, parser.gen.go and of the --report text equal those of a clean generation of the same spec in a fresh directory; in addition every import-free spec is regenerated repeatedly in-process (Go randomises map iteration per range statement, so repeats sample iteration orders) and must reproduce its bytes; " +
 		"non-trivial = history with a generate over stale files of a different spec and a change of process or working directory between generates; distinct by history"
 	run.Assumptions = []string{"touching a user file changes its mtime only", "the clean generation is in-process with cwd = the package directory"}
